@@ -7,7 +7,7 @@ from fractions import Fraction
 from ..cfg import DataFlow
 from ..model import AnalysisError, call_name, dotted, norm_text, walk_no_nested
 from ..rules import loopstate
-from ..terms import Normalizer, Poly
+from ..terms import FlowNormalizer, Normalizer, Poly
 
 MS = "abtem.multislice"
 IAM = "abtem.potentials.iam"
@@ -226,29 +226,72 @@ def run(ctx) -> None:
     p_ep, p_ns = ve.positional_params[:2]
     nz = Normalizer()
     NS1 = nz.norm(ast.parse(f"{p_ns} - 1", mode="eval").body)
-    ranges = [c for c in walk_no_nested(ve.node) if isinstance(c, ast.Call) and call_name(c) == "range"]
-    ctx.require(len(ranges) == 1 and len(ranges[0].args) == 3, "_validate_exit_planes: range(start, stop, step) not found")
-    r = ranges[0]
     EP = nz.norm(ast.Name(id=p_ep, ctx=ast.Load()))
-    good = (nz.norm(r.args[0]) == EP - Poly.const(1) and nz.norm(r.args[1]) == nz.norm(ast.Name(id=p_ns, ctx=ast.Load()))
-            and nz.norm(r.args[2]) == EP)
-    ctx.check(good, "R-EXITPLANES", f"{ve.qualname}:range", ve.loc(r), "planes = range(n-1, num_slices, n)",
-              f"exit planes generated by {norm_text(r)}: not every n-th slice counted from the first n slices",
-              key_detail="range")
-    appends = [c for c in walk_no_nested(ve.node) if isinstance(c, ast.Call) and isinstance(c.func, ast.Attribute)
-               and c.func.attr == "append"]
-    okapp = len(appends) == 1 and nz.norm(appends[0].args[0]) == NS1
-    guard = [i for i in walk_no_nested(ve.node) if isinstance(i, ast.If) and any(a in ast.walk(i) for a in appends)]
-    okguard = False
-    for g in guard:
-        t = g.test
-        if isinstance(t, ast.Compare) and len(t.ops) == 1 and isinstance(t.ops[0], ast.NotEq):
-            sides = [t.left, t.comparators[0]]
-            okguard |= any(norm_text(s) == f"{p_ep}[-1]" for s in sides) and any(nz.norm(s) == NS1 for s in sides
-                                                                                   if norm_text(s) != f"{p_ep}[-1]")
-    ctx.check(okapp and okguard, "R-EXITPLANES", f"{ve.qualname}:last-plane", ve.where,
-              "last slice appended iff missing",
-              "the last slice (num_slices-1) is not guaranteed to be the final exit plane", key_detail="last")
+    NSp = nz.norm(ast.Name(id=p_ns, ctx=ast.Load()))
+    # --- the regular planes of the integer arm: an arithmetic progression, written as range(a, stop, d) or as a
+    #     generator/list comprehension `f(i) for i in range(m)` with f affine in i
+    seq = None  # (first, step, count-or-None, stop-or-None, node, text)
+    for c in walk_no_nested(ve.node):
+        if isinstance(c, ast.Call) and call_name(c) == "range" and len(c.args) == 3:
+            seq = (nz.norm(c.args[0]), nz.norm(c.args[2]), None, nz.norm(c.args[1]), c, norm_text(c))
+    if seq is None:
+        dfv = DataFlow(ve.node)
+        for c in walk_no_nested(ve.node):
+            if isinstance(c, (ast.GeneratorExp, ast.ListComp)) and len(c.generators) == 1 and not c.generators[0].ifs \
+                    and isinstance(c.generators[0].target, ast.Name) and isinstance(c.generators[0].iter, ast.Call) \
+                    and call_name(c.generators[0].iter) == "range" and len(c.generators[0].iter.args) == 1:
+                ivar = c.generators[0].target.id
+                st_c = _stmt_of(ve.node, c)
+                fz = FlowNormalizer(dfv, dfv.cfg.node_of(st_c).idx)
+                fz.no_inline.add(ivar)
+                elt = fz.norm(c.elt)
+                I = Poly.atom(ivar)
+                first = elt.subst({ivar: Poly.const(0)})
+                step = elt.subst({ivar: Poly.const(1)}) - first
+                if elt == first + step * I:  # affine in the loop variable
+                    seq = (first, step, fz.norm(c.generators[0].iter.args[0]), None, c, norm_text(c))
+    ctx.require(seq is not None, "_validate_exit_planes: the regular exit planes are neither range(a, stop, d) nor an "
+                "affine generator over range(m)")
+    first, step, count, stop, seq_node, seq_text = seq
+    good = first == EP - Poly.const(1) and step == EP and (stop is None or stop == NSp)
+    ctx.check(good, "R-EXITPLANES", f"{ve.qualname}:range", ve.loc(seq_node),
+              f"planes start at n-1 and advance by n ({seq_text[:50]})",
+              f"exit planes generated by {seq_text[:70]} (first {first.key()}, step {step.key()}): not every n-th slice "
+              "counted from the first n slices", key_detail="range")
+    # --- the final slice is an exit plane: either the progression provably ends at num_slices-1, or num_slices-1 is
+    #     added (append / tuple or list concatenation / set union), unconditionally or under `planes[-1] != num_slices-1`
+    last_elem = None
+    if count is not None:
+        last_elem = first + step * (count - Poly.const(1))
+    ends_exactly = last_elem is not None and last_elem == NS1
+    adds = []
+    for c in walk_no_nested(ve.node):
+        if isinstance(c, ast.Call) and isinstance(c.func, ast.Attribute) and c.func.attr in ("append", "add") and \
+                len(c.args) == 1 and nz.norm(c.args[0]) == NS1:
+            adds.append(c)
+        if isinstance(c, ast.BinOp) and isinstance(c.op, (ast.Add, ast.BitOr)) and isinstance(
+                c.right, (ast.Tuple, ast.List, ast.Set)) and len(c.right.elts) == 1 and nz.norm(c.right.elts[0]) == NS1:
+            adds.append(c)
+    okadd = False
+    for a in adds:
+        guards = [i for i in walk_no_nested(ve.node) if isinstance(i, ast.If) and any(x is a for x in ast.walk(i))
+                  and not any(x is seq_node for x in ast.walk(i.test))]
+        inner = [g for g in guards if any(x is a for b in g.body for x in ast.walk(b))
+                 and not any(x is seq_node for b in g.body for x in ast.walk(b))]
+        if not inner:
+            okadd = True  # unconditional (a duplicate is possible, reported by the guard rule below if un-guarded)
+        for g in inner:
+            t = g.test
+            if isinstance(t, ast.Compare) and len(t.ops) == 1 and isinstance(t.ops[0], ast.NotEq):
+                sides = [t.left, t.comparators[0]]
+                okadd |= any(isinstance(x, ast.Subscript) and norm_text(x.slice) == "-1" for x in sides) and \
+                    any(nz.norm(x) == NS1 for x in sides if not isinstance(x, ast.Subscript))
+    ctx.check(ends_exactly or okadd, "R-EXITPLANES", f"{ve.qualname}:last-plane", ve.where,
+              "last slice appended iff missing" if okadd else "the progression ends at num_slices-1",
+              "the last slice (num_slices-1) is not guaranteed to be the final exit plane: the regular planes "
+              f"{seq_text[:60]} end at {last_elem.key() if last_elem is not None else 'the last multiple below the stop'}"
+              " and num_slices-1 is not added when it is missing — the last output is then not the full simulation",
+              key_detail="last")
     prep = [b for b in walk_no_nested(ve.node) if isinstance(b, ast.BinOp) and isinstance(b.op, ast.Add)
             and isinstance(b.left, ast.Tuple) and len(b.left.elts) == 1 and nz.norm(b.left.elts[0]) == Poly.const(-1)]
     ctx.check(len(prep) == 1, "R-EXITPLANES", f"{ve.qualname}:entrance", ve.where, "(-1,) prepended",
